@@ -21,6 +21,7 @@ type c06Case struct {
 	Size    int    `json:"size"` // LF-normalised size of the data
 	Declare string `json:"declare"`
 	Backend string `json:"backend"`
+	Discard bool   `json:"discard,omitempty"` // the recipient's domain is not stored (accepted, then dropped): the limit applies all the same
 }
 
 // c06Body builds data whose LF-normalised form has exactly n bytes (lines of ≤50 chars).
@@ -42,6 +43,9 @@ func c06Body(n int) string {
 func c06Exec(c *fw.Ctx, cas c06Case) (nontrivial bool) {
 	smtp := sys.DefaultSMTP()
 	smtp.MaxMessageBytes = cas.Limit
+	if cas.Discard {
+		smtp.DefaultStore = false
+	}
 	s := sys.New(sys.Spec{Store: sys.StoreSpec{Backend: cas.Backend}, SMTP: smtp, NoHub: true})
 	defer s.Close()
 	k := s.DialSMTP()
@@ -118,7 +122,9 @@ func c06Exec(c *fw.Ctx, cas c06Case) (nontrivial bool) {
 		}
 		if fin.Class() == 2 {
 			from, rcpts := d.Delivered()
-			exp = append(exp, sys.Expect{Mailbox: "big", From: from, To: rcpts, Data: body})
+			if !cas.Discard {
+				exp = append(exp, sys.Expect{Mailbox: "big", From: from, To: rcpts, Data: body})
+			}
 			nontrivial = true
 		}
 	}
@@ -138,7 +144,11 @@ func c06Exec(c *fw.Ctx, cas c06Case) (nontrivial bool) {
 			return
 		}
 		from, rcpts := d.Delivered()
-		for _, p := range s.CheckDelivery(mo, []sys.Expect{{Mailbox: "small", From: from, To: rcpts, Data: small}}, "big", "small") {
+		var fexp []sys.Expect
+		if !cas.Discard {
+			fexp = []sys.Expect{{Mailbox: "small", From: from, To: rcpts, Data: small}}
+		}
+		for _, p := range s.CheckDelivery(mo, fexp, "big", "small") {
 			fail("followup|"+p[0], p[1])
 		}
 	}
@@ -182,16 +192,21 @@ func c06Run(c *fw.Ctx) {
 					if !c.Mine(n) {
 						continue
 					}
-					cas := c06Case{Limit: L, Size: sz, Declare: decl, Backend: be}
-					if !c.Begin(func() any { return cas }) {
-						continue
-					}
-					var nt bool
-					c.Guard("smtp", cas, func() { nt = c06Exec(c, cas) })
-					if nt {
-						c.Nontrivial(1)
-						if c.WantSample() {
-							c.Sample(cas)
+					for _, discard := range []bool{false, true} {
+						if discard && be == "file" {
+							continue // nothing reaches the store in this configuration: one back-end is enough
+						}
+						cas := c06Case{Limit: L, Size: sz, Declare: decl, Backend: be, Discard: discard}
+						if !c.Begin(func() any { return cas }) {
+							continue
+						}
+						var nt bool
+						c.Guard("smtp", cas, func() { nt = c06Exec(c, cas) })
+						if nt {
+							c.Nontrivial(1)
+							if c.WantSample() {
+								c.Sample(cas)
+							}
 						}
 					}
 				}
